@@ -216,8 +216,13 @@ def main(tier, seed):
             path = save_case(res, wdir, "case-%d-%d.p21" % (seed, k), data2)
             res.violation(msg2, {"input_file": path, "replay": "%s read %s write /tmp/o1.p21 read /tmp/o1.p21 write /tmp/o2.p21" % (hfile, path)})
     # open findings: each minimal file either still fails in its known way (KNOWN-FINDING) or passes now
-    for sig, body in KNOWN_BAD.items():
-        data = (HDR + body + END).encode()
+    known = [(sig, (HDR + body + END).encode()) for sig, body in KNOWN_BAD.items()]
+    kdir = os.path.join(VERIF, "corpus", PID + "-known")
+    if os.path.isdir(kdir):
+        for f in sorted(os.listdir(kdir)):
+            if f.endswith(".p21"):
+                known.append((f[:-4], open(os.path.join(kdir, f), "rb").read()))
+    for sig, data in known:
         evals += 1
         msg = judge(hfile, wdir, data, None)
         if msg:
